@@ -1,2 +1,10 @@
+"""spec functions: every module of this directory is available as spec.<module>.<fn>;
+wire.py is additionally exported flat (spec.compact_size, ...)"""
+import importlib
+import os
+import pkgutil
+
 from .wire import *  # noqa
-from . import wire  # noqa
+
+for _m in sorted(pkgutil.iter_modules([os.path.dirname(__file__)]), key=lambda m: m.name):
+    globals()[_m.name] = importlib.import_module(__name__ + "." + _m.name)
